@@ -8,6 +8,7 @@ The generator also returns what it intended (`expect`): for every type the inten
 named field, size and alignment; for vftables the intended slot of every function; etc.  Monitors
 compare the implementation's output with these intentions (independently of the Coq model)."""
 import random
+import re
 
 PRIMS = {
     "bool": (1, 1), "u8": (1, 1), "u16": (2, 2), "u32": (4, 4), "u64": (8, 8), "u128": (16, 16),
@@ -911,3 +912,81 @@ if __name__ == "__main__":
         print("=====", k)
         print(v)
     print(exp["miss"])
+
+
+# ---- semantic mutations: small edits of a generated input that keep it parseable most of the time ----
+PRIM_SWAP = ["u8", "u16", "u32", "u64", "i32", "bool", "f32", "*const u8", "*mut u32", "[u8; 3]", "[u32; 2]", "u128"]
+NUM_RE = re.compile(r"(?<![A-Za-z_0-9#\"])(0x[0-9a-fA-F_]+|0b[01_]+|0o[0-7_]+|\d[\d_]*)(?![A-Za-z_0-9\"])")
+
+
+def semantic_mutation(rng, files):
+    """returns (files', description) -- one or two small edits of one file: a number changed a little, an attribute
+    dropped / repeated, two neighbouring lines swapped, a line dropped, `pub` toggled, a primitive type replaced.
+    The result is what a hurried author could have written; nothing is known about what it should mean, so only
+    the agreement of model and implementation is checked on it."""
+    name = rng.choice(sorted(files))
+    lines = files[name].split("\n")
+    what = []
+    for _ in range(rng.choice([1, 1, 2])):
+        k = rng.random()
+        idx = [i for i, l in enumerate(lines) if l.strip()]
+        if not idx:
+            break
+        if k < 0.3:
+            cand = [(i, m) for i in idx for m in NUM_RE.finditer(lines[i]) if "///" not in lines[i] and "//!" not in lines[i]]
+            if not cand:
+                continue
+            i, m = rng.choice(cand)
+            txt = m.group(1).replace("_", "")
+            v = int(txt, 0) if not txt.startswith("0o") else int(txt[2:], 8)
+            nv = rng.choice([v + 1, max(0, v - 1), v * 2, 0, v + 4, v + 8, max(0, v - 4)])
+            lines[i] = lines[i][:m.start(1)] + str(nv) + lines[i][m.end(1):]
+            what.append("number %d -> %d" % (v, nv))
+        elif k < 0.45:
+            cand = [i for i in idx if lines[i].strip().startswith("#[")]
+            if not cand:
+                continue
+            i = rng.choice(cand)
+            if rng.random() < 0.6:
+                what.append("attribute line dropped: " + lines[i].strip()[:40])
+                del lines[i]
+            else:
+                what.append("attribute line repeated: " + lines[i].strip()[:40])
+                lines.insert(i, lines[i])
+        elif k < 0.6:
+            cand = [i for i in idx[:-1] if lines[i].rstrip().endswith((",", ";")) and lines[i + 1].rstrip().endswith((",", ";"))
+                    and lines[i].startswith("    ") and lines[i + 1].startswith("    ")]
+            if not cand:
+                continue
+            i = rng.choice(cand)
+            lines[i], lines[i + 1] = lines[i + 1], lines[i]
+            what.append("two neighbouring lines swapped")
+        elif k < 0.7:
+            cand = [i for i in idx if lines[i].startswith("    ") and lines[i].rstrip().endswith(",") and ":" in lines[i]]
+            if not cand:
+                continue
+            i = rng.choice(cand)
+            what.append("line dropped: " + lines[i].strip()[:40])
+            del lines[i]
+        elif k < 0.82:
+            cand = [i for i in idx if re.search(r"\bpub (type|enum|fn|extern|[a-z_][a-z_0-9]*:)", lines[i])]
+            cand2 = [i for i in idx if re.match(r"^\s*(type|enum|fn|extern) ", lines[i]) or re.match(r"^    [a-z_][a-z_0-9]*: ", lines[i])]
+            if cand and rng.random() < 0.5:
+                i = rng.choice(cand)
+                lines[i] = re.sub(r"\bpub ", "", lines[i], count=1)
+                what.append("pub removed")
+            elif cand2:
+                i = rng.choice(cand2)
+                lines[i] = re.sub(r"^(\s*)", r"\1pub ", lines[i], count=1)
+                what.append("pub added")
+        else:
+            cand = [i for i in idx if re.match(r"^    (pub )?[a-z_][a-z_0-9]*: [^,]+,?\s*$", lines[i])]
+            if not cand:
+                continue
+            i = rng.choice(cand)
+            nt = rng.choice(PRIM_SWAP)
+            lines[i] = re.sub(r": [^,]+(,?\s*)$", ": %s\\1" % nt, lines[i])
+            what.append("field type replaced by " + nt)
+    out = dict(files)
+    out[name] = "\n".join(lines)
+    return out, "; ".join(what) or "unchanged"
